@@ -1984,8 +1984,14 @@ def m_linalg_norm(interp, A, ord=None, axis=None, **k):
 
 def m_np_array(interp, x, dtype=None, **k):
     if contains_sym(x):
+        unknown = set(k) - {"copy", "ndmin", "order", "subok"}
+        if unknown:
+            raise EngineError("np.array(symbolic, %s) not modelled" % sorted(unknown))
         a = np.empty(np.shape(np.asarray(x, dtype=object)), dtype=object)
         a[...] = np.asarray(x, dtype=object)
+        nd = int(k.get("ndmin", 0) or 0)
+        if a.ndim < nd:
+            a = a.reshape((1,) * (nd - a.ndim) + a.shape)          # numpy prepends axes
         return a
     return interp.call_real(np.array, [x], dict(dtype=dtype, **k) if dtype is not None else k)
 
